@@ -4,6 +4,8 @@ package gen
 import (
 	"math/big"
 	"math/rand"
+
+	"github.com/consensys/gnark/logger"
 	"strings"
 )
 
@@ -14,10 +16,12 @@ var BN254 = func() *big.Int {
 
 type G struct{ R *rand.Rand }
 
+func init() { logger.Disable() }
+
 func New(seed int64) *G { return &G{R: rand.New(rand.NewSource(seed))} }
 
-func (g *G) Intn(n int) int { return g.R.Intn(n) }
-func (g *G) Pick(n int) int  { return g.R.Intn(n) }
+func (g *G) Intn(n int) int           { return g.R.Intn(n) }
+func (g *G) Pick(n int) int           { return g.R.Intn(n) }
 func (g *G) Chance(num, den int) bool { return g.R.Intn(den) < num }
 
 // Below returns a uniform value in [0, n).
@@ -37,7 +41,7 @@ func (g *G) Field(p *big.Int) *big.Int {
 	case 4:
 		// value with leading zero bytes
 		bl := p.BitLen()
-		if bl > 16 {
+		if bl > 40 {
 			return g.Below(new(big.Int).Lsh(big.NewInt(1), uint(bl-8-8*g.R.Intn(3))))
 		}
 	}
